@@ -284,6 +284,13 @@ func (s *SessionStore) Remove(ctx context.Context, session *Session) {
 	s.mutex.Lock()
 	defer s.mutex.Unlock()
 
+	// Only the session that is registered under this id can be removed: a second
+	// Remove of the same session (two participants leaving last at the same time)
+	// must not release the id again, nor unregister a newer session that reuses it.
+	if registered, ok := s.sessions[s.GlobalSessionID(session.ID)]; !ok || registered != session {
+		return
+	}
+
 	delete(s.sessions, s.GlobalSessionID(session.ID))
 	session.Close()
 
